@@ -6,6 +6,7 @@ from __future__ import annotations  # required for docs to alias type annotation
 
 import sys
 from math import pow, prod
+from types import FunctionType
 from typing import Optional, Tuple
 
 from ._internal_utils import generate__all__
@@ -131,7 +132,11 @@ def apply_constraint(
     if constraint_name is None or constraint_name == "":
         return scales
     constraint = getattr(sys.modules[__name__], constraint_name, None)
-    if constraint is None:
+    if (
+        not isinstance(constraint, FunctionType)
+        or constraint.__module__ != __name__
+        or constraint is apply_constraint
+    ):
         raise ValueError(
             f"Constraint: {constraint_name} is not a valid constraint (see"
             " unit_scaling.constraints for available options)."
